@@ -32,6 +32,8 @@ def prepare(tier):
 
 
 def cases(plan, tier, shard, nshards, host):
+    for c in corpus_cases(tier, shard, nshards):
+        yield c
     for v in common.REFS:
         P = common.read_meta(plan["raw"][v])["P"]
         for idx, rec in common.read_dataset(plan["raw"][v], shard, nshards):
@@ -53,11 +55,75 @@ def cases(plan, tier, shard, nshards, host):
                               "exc": [e[2] for e in c.get("exc", [])]} for c in rec["codes"]]}
 
 
+def corpus_cases(tier, shard, nshards):
+    import glob
+    import os
+
+    m = 0
+    for f in sorted(glob.glob(os.path.join(common.REPO, "test", "bytecode_*", "*.pyc"))):
+        if "dropbox" in f or os.path.getsize(f) > (12000 if tier == "quick" else 200000):
+            continue
+        m += 1
+        if m % nshards == shard:
+            yield {"kind": "corpus", "path": os.path.relpath(f, common.REPO)}
+
+
+def run_corpus(case, ctx):
+    """every version of the historical corpus: the internal-consistency invariants of the property (no interpreter needed)"""
+    import os
+    import re
+
+    import xdis.cross_dis
+    from xdis.disasm import get_opcode
+    from xdis.load import load_module
+
+    try:
+        res = load_module(os.path.join(common.REPO, case["path"]))
+    except Exception:
+        return
+    ver, co, pypy = tuple(res[0][:2]), res[3], res[4]
+    fam = re.search(r"bytecode_([^/]+)/", case["path"]).group(1)
+    if not hasattr(co, "co_code"):
+        return
+    opc = get_opcode(ver, pypy)
+    jumps = set(opc.JREL_OPS) | set(opc.JABS_OPS)
+    for c in walk_xcodes(co):
+        ctx.count("corpus_code_objects")
+        where = "%s/%s" % (case["path"], c.co_name)
+        try:
+            xins = xinst.xinsts(c, opc)
+            l1 = list(opc.findlabels(c.co_code, opc))
+            l2 = list(xdis.cross_dis.findlabels(c.co_code, opc))
+        except Exception as e:
+            ctx.violation("corpus-%s:raises:%s" % (fam, type(e).__name__), "%r (%s)" % (e, where))
+            continue
+        targets = set(i.argval for i in xins if i.opcode in jumps and i.arg is not None)
+        handlers = set()
+        if ver >= (3, 11) and getattr(c, "co_exceptiontable", None):
+            from xdis.bytecode import parse_exception_table
+
+            handlers = set(e.target for e in parse_exception_table(c.co_exceptiontable))
+        if set(l1) != targets or set(l2) != targets:
+            ctx.violation("corpus-%s:labels-vs-own-argval" % fam, "opc.findlabels %s, cross_dis.findlabels %s, jump argvals %s (%s)"
+                          % (sorted(l1)[:6], sorted(l2)[:6], sorted(targets)[:6], where))
+        flagged = set(i.offset for i in xins if i.is_jump_target and i.opname != "CACHE")
+        starts = set(i.offset for i in xins) | {len(c.co_code)}
+        if flagged != ((targets | handlers) & starts):
+            ctx.violation("corpus-%s:is_jump_target" % fam, "flagged %s, labels+handlers %s (%s)" % (sorted(flagged)[:6], sorted((targets | handlers) & starts)[:6], where))
+        bad = [t for t in targets if t not in starts]
+        if bad:
+            ctx.violation("corpus-%s:target-not-instruction-start" % fam, "targets %s are not instruction starts (%s)" % (bad[:4], where))
+
+
 def case_key(c):
+    if c["kind"] == "corpus":
+        return "corpus:" + c["path"]
     return "%s:%s:%s" % (c["kind"], c["ver"], c.get("code") or c.get("id"))
 
 
 def describe(c):
+    if c["kind"] == "corpus":
+        return c
     if c["kind"] == "raw":
         return {"kind": "raw", "version": c["ver"], "tag": c["tag"], "co_code_len": len(c["code"]) // 2,
                 "reference_targets": c["targets"], "reference_labels": c["labels"]}
@@ -136,6 +202,8 @@ def _check_code(ctx, vtag, ver, where, code_bytes, xins, ref, opc, P, compiled):
 
 
 def run_case(case, ctx):
+    if case["kind"] == "corpus":
+        return run_corpus(case, ctx)
     ver = tuple(case["ver"])
     vtag = "%d.%d" % ver
     opc = xinst.opc_for(ver)
